@@ -196,3 +196,95 @@ fn map_each_reset__fresh_traversal() {
     std::mem::forget(it);
     std::mem::forget((v1, v2));
 }
+
+// ---------------------------------------------------------------------------
+// One level of the traversal: `FieldIndexIterator` (what `MapEachIterator` stacks).
+
+/// `[j]` level over a borrowed array of N ints: yields element j once if j < N,
+/// nothing otherwise; then nothing.
+fn level_index<const N: usize>() {
+    let xs: [i64; N] = kani::any();
+    let vals: [LhsValue<'static>; N] = std::array::from_fn(|i| LhsValue::Int(xs[i]));
+    let val = LhsValue::Array(array_borrowed(Type::Int, &vals[..]));
+    let j: u32 = kani::any();
+    let idx = FieldIndex::ArrayIndex(j);
+    let mut it = match FieldIndexIterator::new(val, &idx) {
+        Ok(it) => it,
+        Err(e) => {
+            std::mem::forget(e);
+            assert!(false, "an integer index on an array is well-typed");
+            return;
+        }
+    };
+    let first = it.next();
+    match &first {
+        Some(LhsValue::Int(v)) => {
+            assert!((j as usize) < N && *v == xs[j as usize], "[j] yields exactly element j");
+        }
+        None => {
+            assert!(j as usize >= N, "an in-range index yields a value");
+        }
+        Some(_) => {
+            assert!(false);
+        }
+    }
+    std::mem::forget(first);
+    let second = it.next();
+    assert!(second.is_none(), "a plain index yields at most one value");
+    std::mem::forget(second);
+    kani::cover!(j as usize == N, "index == len");
+    kani::cover!((j as usize) < N, "index in range");
+    kani::cover!(j == u32::MAX);
+    std::mem::forget(it);
+    std::mem::forget(vals);
+}
+
+#[kani::proof]
+#[kani::stub(std::mem::drop, crate::lhs_types::verif_kani::common::mem_drop__releases_nothing_observable)]
+#[kani::unwind(3)]
+fn field_index_iterator__index_level_n2() {
+    level_index::<2>()
+}
+
+/// `[*]` level over a borrowed array of N ints: the N elements in order, then nothing.
+fn level_each<const N: usize>() {
+    let xs: [i64; N] = kani::any();
+    let vals: [LhsValue<'static>; N] = std::array::from_fn(|i| LhsValue::Int(xs[i]));
+    let val = LhsValue::Array(array_borrowed(Type::Int, &vals[..]));
+    let idx = FieldIndex::MapEach;
+    let mut it = match FieldIndexIterator::new(val, &idx) {
+        Ok(it) => it,
+        Err(e) => {
+            std::mem::forget(e);
+            assert!(false, "[*] on an array is well-typed");
+            return;
+        }
+    };
+    let mut k = 0;
+    while k < N {
+        let got = it.next();
+        assert!(matches!(&got, Some(LhsValue::Int(v)) if *v == xs[k]), "[*] yields every element in array order");
+        std::mem::forget(got);
+        k += 1;
+    }
+    let end = it.next();
+    assert!(end.is_none(), "[*] yields nothing beyond the elements");
+    std::mem::forget(end);
+    kani::cover!(true);
+    std::mem::forget(it);
+    std::mem::forget(vals);
+}
+
+#[kani::proof]
+#[kani::stub(std::mem::drop, crate::lhs_types::verif_kani::common::mem_drop__releases_nothing_observable)]
+#[kani::unwind(3)]
+fn field_index_iterator__each_level_n2() {
+    level_each::<2>()
+}
+
+#[kani::proof]
+#[kani::stub(std::mem::drop, crate::lhs_types::verif_kani::common::mem_drop__releases_nothing_observable)]
+#[kani::unwind(2)]
+fn field_index_iterator__each_level_n0() {
+    level_each::<0>()
+}
